@@ -35,9 +35,10 @@ type Exec struct {
 }
 
 // RunOnce executes the driver with the given choice prefix (default choices afterwards).
-func RunOnce(d Driver, prefix []int, mapOrder bool) *Exec {
+func RunOnce(d Driver, prefix []int, mapOrder, delay bool) *Exec {
 	s := vsync.NewSession(prefix)
 	s.MapOrder = mapOrder
+	s.DelayBound = delay
 	var out Outcome
 	s.Run(func() { out = d(s) })
 	e := &Exec{Points: s.Points, Verdict: s.Verdict, Detail: s.Detail, Out: out}
@@ -66,8 +67,9 @@ type Job struct {
 	Bound    int    `json:"bound"`
 	Expand   bool   `json:"expand"` // only run this node and return its children
 	MapOrder bool   `json:"map_order"`
+	Delay    bool   `json:"delay_bound"`
 	MaxExec  int    `json:"max_exec"`
-	Replay   bool   `json:"replay"` // run exactly this choice list once
+	Replay   bool   `json:"replay"`   // run exactly this choice list once
 	Deadline int64  `json:"deadline"` // unix seconds; 0 none
 }
 
@@ -92,7 +94,7 @@ type explorer struct {
 }
 
 func (e *explorer) visit(prefix []int) (children [][]int) {
-	x := RunOnce(e.d, prefix, e.job.MapOrder)
+	x := RunOnce(e.d, prefix, e.job.MapOrder, e.job.Delay)
 	e.res.Execs++
 	e.res.Points += len(x.Points)
 	if len(x.Points) > e.res.MaxPoints {
@@ -181,7 +183,7 @@ func Work(job Job) Res {
 	e := &explorer{d: mk(job.Param), job: job, res: &res}
 	switch {
 	case job.Replay:
-		x := RunOnce(e.d, job.Prefix, job.MapOrder)
+		x := RunOnce(e.d, job.Prefix, job.MapOrder, job.Delay)
 		res.Execs = 1
 		msg := x.Out.Fail
 		if msg == "" && x.Verdict != "" {
@@ -255,7 +257,7 @@ func (t *Total) add(r *Res) {
 }
 
 // Explore explores all executions of driver/param with at most bound deviations, sharded over the pool.
-func Explore(pool *par.Pool, driver, param string, bound int, mapOrder bool, deadline time.Time) *Total {
+func Explore(pool *par.Pool, driver, param string, bound int, mapOrder, delay bool, deadline time.Time) *Total {
 	t := &Total{Outcomes: map[string]int{}, Verdicts: map[string]int{}, Exhaustive: true, Bound: bound}
 	frontier := [][]int{nil}
 	target := pool.N * 6
@@ -268,7 +270,7 @@ func Explore(pool *par.Pool, driver, param string, bound int, mapOrder bool, dea
 		}
 		jobs := make([][]byte, len(frontier))
 		for i, p := range frontier {
-			jobs[i], _ = json.Marshal(Job{Driver: driver, Param: param, Prefix: p, Bound: bound, Expand: true, MapOrder: mapOrder})
+			jobs[i], _ = json.Marshal(Job{Driver: driver, Param: param, Prefix: p, Bound: bound, Expand: true, MapOrder: mapOrder, Delay: delay})
 		}
 		results := make([]*Res, len(frontier))
 		_ = pool.Run(jobs, func(r par.Result) {
@@ -301,7 +303,7 @@ func Explore(pool *par.Pool, driver, param string, bound int, mapOrder bool, dea
 	// rough per-job execution cap derived from the time left (reported as a cap when hit)
 	jobs := make([][]byte, len(frontier))
 	for i, p := range frontier {
-		jobs[i], _ = json.Marshal(Job{Driver: driver, Param: param, Prefix: p, Bound: bound, MapOrder: mapOrder, Deadline: deadline.Unix()})
+		jobs[i], _ = json.Marshal(Job{Driver: driver, Param: param, Prefix: p, Bound: bound, MapOrder: mapOrder, Delay: delay, Deadline: deadline.Unix()})
 	}
 	_ = left
 	stop := false
